@@ -13,6 +13,8 @@ import (
 //	chunks   chunk lists from the grammar of DESIGN §5 C13 and the line they render to
 //	history  0-5 earlier lines (failing ones included) then a line, all parsed on one LineParser value
 //	fuzz     arbitrary bytes, token-level assemblies of marker fragments, mutated well-formed lines
+//	utf8     byte strings around the borders of UTF-8 well-formedness (validates the model's decoder)
+//	unicode  blocks of 1024 code points; 1088 cases cover everything (validates the model's Unicode tables)
 //
 // Chunk syntax (mirrored by Ysgo/Spec/MarkupSpec.lean and Driver/MarkupDrv.lean):
 //
@@ -542,6 +544,22 @@ func init() {
 			return c.Add(h, sexp.Bytes(line))
 		case "fuzz":
 			return c.Add(sexp.Bytes(fuzzLine(r)))
+		case "utf8":
+			// bytes biased to UTF-8 lead and continuation bytes at the borders of the accept ranges
+			pool := []byte{0x00, 0x41, 0x7f, 0x80, 0x8f, 0x90, 0x9f, 0xa0, 0xbf, 0xc0, 0xc1, 0xc2, 0xdf, 0xe0, 0xe1, 0xec, 0xed, 0xee, 0xef, 0xf0, 0xf1, 0xf3, 0xf4, 0xf5, 0xff}
+			b := make([]byte, r.Intn(12))
+			for k := range b {
+				if r.Chance(1, 4) {
+					b[k] = byte(r.Intn(256))
+				} else {
+					b[k] = pool[r.Intn(len(pool))]
+				}
+			}
+			return c.Add(sexp.Bytes(b))
+		case "unicode":
+			// case i covers the code points [1024 i, 1024 (i+1)); 1088 cases cover U+0000..U+10FFFF
+			lo := (i % 1088) * 1024
+			return c.Add(sexp.N(lo), sexp.N(lo+1024))
 		}
 		return nil
 	})
